@@ -59,6 +59,7 @@ type Waiter struct {
 	Cancelled atomic.Bool
 	CancelAt  time.Duration
 	Completed bool // the driver completed the listener this waiter was granted
+	DeadlineAt time.Duration // > 0: the caller's context carries this deadline (virtual time since world start)
 }
 
 // Done reports whether Acquire returned.
@@ -82,6 +83,7 @@ type World struct {
 	Actor    *inject.Actor
 	Deadline time.Time
 	start    time.Time
+	nextDeadline time.Duration
 	total    int           // capacity of the underlying limiter (Cap + 1 janitor token for blocking / deadline)
 	janitor  core.Listener // token held for the whole scenario; its completion broadcasts and flushes helper goroutines
 
@@ -200,11 +202,22 @@ func (w *World) Hold(n int) []core.Listener {
 // Spawn starts a caller goroutine.
 func (w *World) Spawn() *Waiter { return w.SpawnWith(nil) }
 
+// SpawnDeadline starts a caller whose context expires at the given virtual instant (since world start).
+func (w *World) SpawnDeadline(at time.Duration) *Waiter {
+	w.nextDeadline = at
+	return w.SpawnWith(nil)
+}
+
 // SpawnWith starts a caller goroutine after letting prep act on its fresh context (e.g. cancel it first).
 func (w *World) SpawnWith(prep func(ctx context.Context, cancel context.CancelFunc)) *Waiter {
 	w.mu.Lock()
 	wt := &Waiter{ID: len(w.Waiters)}
 	ctx, cancel := context.WithCancel(context.Background())
+	if w.nextDeadline > 0 {
+		wt.DeadlineAt = w.nextDeadline
+		ctx, cancel = context.WithDeadline(context.Background(), w.start.Add(w.nextDeadline))
+		w.nextDeadline = 0
+	}
 	wt.Ctx, wt.Cancel = inject.WithCaller(ctx, wt.ID), cancel
 	w.Waiters = append(w.Waiters, wt)
 	w.mu.Unlock()
@@ -307,7 +320,8 @@ func (w *World) Snap(tag string) Snapshot {
 			s.Refused = append(s.Refused, wt.ID)
 		default:
 			b := w.bound(wt)
-			cancelCounts := wt.Cancelled.Load() && (w.Kind.Family != "queue" || w.Kind.Evict)
+			ctxDone := wt.Cancelled.Load() || (wt.DeadlineAt > 0 && now >= wt.DeadlineAt)
+			cancelCounts := ctxDone && (w.Kind.Family != "queue" || w.Kind.Evict)
 			if cancelCounts || (b > 0 && now >= b) {
 				s.GivingUp = append(s.GivingUp, wt.ID)
 			} else {
@@ -358,7 +372,7 @@ func (w *World) Teardown(held []core.Listener) Final {
 			pending = true
 		}
 	}
-	if pending && w.Kind.Timeout > 0 {
+	if pending {
 		time.Sleep(w.Kind.Timeout + time.Second)
 		w.Quiesce()
 	}
